@@ -144,11 +144,13 @@ def _analyse_rotvec(ctx):
         mat = SArray((3, 3), {})
         ev.cur, ev.depth = f, 1
         env = {f.params[0]: rv, f.params[1]: mat}
+        A.div_log = []
         try:
             ev.exec_block(stmts, env)
         except Unsupported as e:
             raise AnalysisError('mat_from_rotvec not analysable on the path %s: %s'
                                 % (_iv_text(iv, 1), e))
+        div_log, A.div_log = A.div_log, None
         ctx.need(var in ev.defs and ev.versions.get(var) == 1,
                  "the tested local '%s' of mat_from_rotvec is not assigned exactly once" % var)
         # what the tested variable is: sum of squares (power 2) or its root (power 1)
@@ -165,10 +167,11 @@ def _analyse_rotvec(ctx):
         res['vdef_node'] = ev.def_node.get(var)
         missing = [(a, b) for a in range(3) for b in range(3) if (a, b) not in mat.entries]
         P = dict(iv=iv, tests=tests, missing=missing, label=_iv_text(iv, power), entries={},
-                 roles=None, series=None, divzero=False, err=None)
+                 roles=None, series=None, divzero=False, err=None, A=A, divisors=[])
         res['paths'].append(P)
         if missing:
             continue
+        P['divisors'] = [ev.expand(d_, stop=(var,)) for d_ in div_log]
         E = {k: ev.expand(v, stop=(var,)) for k, v in mat.entries.items()}
         S = SymEval(ctx.repo, A).call_function(sk, [rv])
         try:
@@ -276,6 +279,114 @@ def rot_series(ctx):
                        % (P['label'], r_, _DESC[r_], first, thr_n, bound))
 
 
+def _sturm_root(coefs, lo, hi):
+    """does the polynomial sum coefs[k] x^k (Fractions) have a root in [lo, hi]?  Exact: the end
+    points are evaluated, the open interval is decided by a Sturm sequence."""
+    def ev(p, x):
+        r = Fraction(0)
+        for c in reversed(p):
+            r = r * x + c
+        return r
+
+    def trim(p):
+        p = list(p)
+        while p and p[-1] == 0:
+            p.pop()
+        return p
+
+    def rem(a, b):
+        a = list(a)
+        while len(a) >= len(b) and trim(a):
+            a = trim(a)
+            if len(a) < len(b):
+                break
+            q = a[-1] / b[-1]
+            sh = len(a) - len(b)
+            for i, c in enumerate(b):
+                a[i + sh] -= q * c
+            a = trim(a)
+        return trim(a)
+    p0 = trim(coefs)
+    if len(p0) <= 1:
+        return False
+    if ev(p0, lo) == 0 or ev(p0, hi) == 0:
+        return True
+    p1 = trim([k * c for k, c in enumerate(p0)][1:])
+    seq = [p0, p1]
+    while len(seq[-1]) > 1:
+        r = rem(seq[-2], seq[-1])
+        if not r:
+            break
+        seq.append([-c for c in r])
+
+    def changes(x):
+        vals = [v for v in (ev(p_, x) for p_ in seq) if v != 0]
+        return sum(1 for a, b in zip(vals, vals[1:]) if (a > 0) != (b > 0))
+    return changes(lo) - changes(hi) > 0
+
+
+def _poles(A, divisors, var):
+    """Divisors (normal forms in the squared / plain norm `var` > 0, taken BEFORE any cancellation)
+    that vanish somewhere on an arm without an upper bound.  -> (descriptions, undecided)"""
+    found, unknown = [], []
+    iv = getattr(A, 'inv_of', {})
+
+    def kind(at):
+        if at == var:
+            return 'pos'
+        if at in A.sqrt_of and A.sqrt_of[at].atoms() <= {var}:
+            return 'pos'
+        if at.startswith('inv(') and at in A.inverse and at not in iv:
+            return 'pos' if kind(A.inverse[at]) == 'pos' else None
+        for tab, nm in ((A.cos_arg, 'cos'), (A.sin_arg, 'sin')):
+            if at in tab:
+                inner = set()
+                for x in tab[at].n.atoms():
+                    inner.add(x)
+                    inner |= A._nested_atoms(x)
+                if var in inner:
+                    return nm
+        return None
+    seen = set()
+    for d in divisors:
+        pn = d.n
+        k_ = pn.key()
+        if k_ in seen:
+            continue
+        seen.add(k_)
+        ats = pn.atoms()
+        kinds = {a_: kind(a_) for a_ in ats}
+        if any(k is None for k in kinds.values()):
+            unknown.append(k_[:50])
+            continue
+        trig = sorted(a_ for a_, k in kinds.items() if k in ('cos', 'sin'))
+        if not trig:
+            if all(c > 0 for c in pn.t.values()) or all(c < 0 for c in pn.t.values()):
+                continue
+            unknown.append(k_[:50])
+            continue
+        if len(trig) > 1:
+            unknown.append(k_[:50])
+            continue
+        t0 = trig[0]
+        # a polynomial in x = cos n (or sin n) whose coefficients share one positive factor
+        rest = {tuple(x for x in m if x[0] != t0) for m in pn.t}
+        if len(rest) != 1:
+            unknown.append(k_[:50])
+            continue
+        deg = max((pw for m in pn.t for a_, pw in m if a_ == t0), default=0)
+        coefs = [Fraction(0)] * (deg + 1)
+        for m, c in pn.t.items():
+            coefs[dict(m).get(t0, 0)] += c
+        if _sturm_root(coefs, Fraction(-1), Fraction(1)) or coefs[0] == 0:
+            x_ = kinds[t0]
+            found.append('a division by %s with x = %s n (n = |rv|), which vanishes for a value '
+                         'of %s n in [-1, 1] - attained on this arm (|rv| = pi for 1 + cos n, '
+                         'pi/2 for cos n)' % (' + '.join(
+                             '%s x^%d' % (c, k) for k, c in enumerate(coefs) if c), x_, x_))
+    return found, unknown
+
+
 def rot_exp(ctx):
     ctx.rule('ROT-EXP', 'mat = cos*I + (sin n/n)*skew(rv) + ((1-cos n)/n^2)*rv rv^T with the '
              'sign pattern of util.skew_matrix on every path; the tested local is the (squared) '
@@ -307,6 +418,20 @@ def rot_exp(ctx):
                        % (a, b, P['label']))
         if P['iv'][2] != INF:
             continue
+        # "for every rotation vector": the closed form has no pole on its arm (a division by
+        # something that vanishes at a half turn is 0/0 there and loses all digits around it,
+        # although the formula is an identity away from it); divisors are taken as evaluated,
+        # before the normal form cancels anything
+        found, unknown = _poles(P['A'], P['divisors'], R['var'])
+        ctx.need(not unknown, 'closed-form arm: the divisor(s) %s are not decided'
+                 % ', '.join(unknown)[:120])
+        ctx.ob('ROT-EXP', not found, None,
+               'no divisor of the closed-form arm vanishes for |rv| on the arm (%d divisors)'
+               % len(P['divisors']), f=f, node=node, key='pole',
+               why='on the arm without an upper bound (%s) there is %s: the routine is not the '
+                   'exponential map to machine precision for every rotation vector (division '
+                   'by zero at that norm, cancellation around it)'
+                   % (P['label'], '; '.join(found)[:300]))
         for r_ in ('cos', 'k1', 'k2'):
             got = P['series'][r_]
             ok = all(got.c.get(k, 0) == want[r_].c.get(k, 0) for k in range(UPTO + 1)) and \
